@@ -263,12 +263,11 @@ class FileModel:
     def append(self, spec, data):
         import astropy.units as u
 
-        dt = np.float32 if self.dtype == "f4" else np.float64
         for c in self.cols:
             v = data[c]
             if spec["units"][c] != self.units[c]:
                 v = (np.asarray(v, dtype=np.float64) * u.Unit(spec["units"][c])).to_value(u.Unit(self.units[c]))
-            self.data[c] = np.concatenate([self.data[c], np.asarray(v).astype(dt)])
+            self.data[c] = np.concatenate([self.data[c], np.asarray(v).astype(self.data[c].dtype)])  # the file's column type
 
 
 def classify(m, t):
@@ -290,7 +289,8 @@ def classify(m, t):
             may.append("reorder")
         if any(t["units"][c] != m.units[c] for c in m.cols):
             may.append("unit")
-        if t["dtype"] != m.dtype:
+        t_dt = t.get("col_dtypes") or {c: ("float32" if t["dtype"] == "f4" else "float64") for c in t["cols"]}
+        if any(str(m.data[c].dtype) != t_dt.get(c) for c in m.cols if c in t_dt):
             may.append("dtype")
     if must:
         return "must", must[0]
@@ -313,7 +313,9 @@ def spec_from_samples(smp):
     dts = {str(v.dtype) for v in data.values()}
     tr = smp.t_ref
     spec = {"n": len(smp), "cols": cols, "units": units, "dtype": "f4" if dts == {"float32"} else "f8", "t_ref": None if tr is None else float(tr.tcb.mjd),
-            "poly_trend": smp.poly_trend, "n_offsets": smp.n_offsets, "gen_seed": 0, "from_sampler": True}
+            "poly_trend": smp.poly_trend, "n_offsets": smp.n_offsets, "gen_seed": 0, "from_sampler": True,
+            # a sampler output can mix float widths (float64 draws next to a float32 ln_prior read from a float32 library)
+            "col_dtypes": {c: str(v.dtype) for c, v in data.items()}}
     return spec, data
 
 
@@ -613,11 +615,11 @@ def run(program):
                         must_be_identical("refused-append")
                     else:
                         try:
-                            if var == "dtype" and m.dtype == "f4":
+                            if var == "dtype":
                                 # accepted into a NARROWER float type: unless every value survives the cast exactly, what
                                 # the file now holds is not "the concatenation of everything written"
                                 data_new = built[op["table"]][1]
-                                lossy = [c for c in m.cols if np.any(np.asarray(data_new[c]).astype(np.float32).astype(np.float64) != np.asarray(data_new[c], dtype=np.float64))]
+                                lossy = [c for c in m.cols if m.data[c].dtype == np.float32 and np.any(np.asarray(data_new[c]).astype(np.float32).astype(np.float64) != np.asarray(data_new[c], dtype=np.float64))]
                                 if lossy:
                                     v.append(Violation(PROPERTY, "C12.append-lossy", sig + ":append-accepted-but-values-narrowed-to-the-file's-float-type", "%s: float64 values of column(s) %s were accepted into a float32 file" % (op, lossy)))
                             m.append(tspec, built[op["table"]][1])
@@ -712,7 +714,7 @@ def run(program):
                     want = np.asarray(m.data[c], dtype=np.float64)[rows] if len(rows) else np.zeros(0)
                     if op.get("units") and c in op["units"]:
                         want = (want * u.Unit(m.units[c])).to_value(u.Unit(op["units"][c]))
-                    ok = close_ulp(arr[:, j], want, rel=2e-6) if m.dtype == "f4" else close_ulp(arr[:, j], want, ulps=4)
+                    ok = close_ulp(arr[:, j], want, rel=2e-6) if (m.dtype == "f4" or m.data[c].dtype == np.float32) else close_ulp(arr[:, j], want, ulps=4)
                     if not ok:
                         v.append(
                             Violation(
